@@ -131,7 +131,7 @@ def call_options(opts, rng=None):
     return (), full
 
 
-RANGE_KINDS = ['none', 'none', 'inside', 'clip_low', 'clip_high', 'below', 'above', 'reversed']
+RANGE_KINDS = ['none', 'none', 'inside', 'clip_low', 'clip_high', 'below', 'above', 'reversed', 'open_high', 'open_low', 'far_high']
 
 
 def range_strategy():
@@ -177,6 +177,13 @@ def range_of(ax, r):
         return (hi + (1 + r['a']) * w + 2 * ax.df, hi + (2 + r['b']) * w + 3 * ax.df)
     if k == 'reversed':
         return (lo + r['b'] * w, lo + r['a'] * w)
+    # one-sided ranges: everything above / below a frequency, written with an infinite or an absurdly large bound
+    if k == 'open_high':
+        return (lo + r['a'] * w, math.inf)
+    if k == 'open_low':
+        return (-math.inf, lo + r['b'] * w)
+    if k == 'far_high':
+        return (lo + r['a'] * w, 1e20)
     raise ValueError(k)
 
 
